@@ -199,6 +199,7 @@ func (ex *Exec) execBlock(fr *Frame, b *ssa.BasicBlock, pc Term, st State) (Stat
 					recvIdx++
 				}
 			}
+			st = ex.ghostAtSelect(fr, pc, st, tup[0])
 		case *ssa.Send:
 			ex.siteSend(fr, in.Chan, in.X, in.Pos(), pc, st)
 		case *ssa.SliceToArrayPointer:
